@@ -38,7 +38,7 @@ type Fault struct {
 	Slot   Slot   `json:"slot"`
 	Mut    Mut    `json:"mut"`
 	Mode   string `json:"mode"`   // replace | inject (deliver the altered message, then also the honest one)
-	Timing string `json:"timing"` // natural | after-broadcast | early (schedule in which the deviator is served first and its messages arrive first)
+	Timing string `json:"timing"` // natural | after-broadcast | early (the deviator is served first and its messages arrive first) | late (the deviator's messages to the slot's recipient arrive last)
 	build  func(m *protocol.Message) *protocol.Message
 	// State-level deviation: called with the deviator's handler after its construction and after every
 	// delivery to it; returns true once the deviation has been applied.
@@ -169,6 +169,25 @@ func run(spec *sess.Spec, seed int64, label string, f *Fault, observe func(drv.D
 						pick = i
 						break
 					}
+				}
+			}
+			if pick < 0 {
+				pick = 0
+			}
+		}
+		if f != nil && f.Timing == "late" && f.Slot.To != "" {
+			// schedule "late": everything the deviator sends to the recipient named in the slot is held back as long
+			// as anything else can be delivered, so that the other honest parties move ahead and their next-round
+			// messages are queued at that recipient before it has the deviator's message of the current round
+			dev := f.Deviator
+			if dev == "" {
+				dev = f.Slot.From
+			}
+			pick = -1
+			for i, q := range net.Queue {
+				if !(q.M != nil && q.M.From == dev && q.To == f.Slot.To) {
+					pick = i
+					break
 				}
 			}
 			if pick < 0 {
